@@ -321,7 +321,15 @@ class VBytes:
         return VBytes([Piece('view', arr, simp(off + lo), n)], self.kind)
 
     def concat(self, other):
-        return VBytes(self.pieces + other.pieces, self.kind if self.kind != 'memoryview' else 'bytes')
+        kind = self.kind if self.kind != 'memoryview' else 'bytes'
+        if self.pieces and other.pieces:
+            a, b = self.pieces[-1], other.pieces[0]
+            if a.kind == b.kind == 'view' and (a.a is b.a or (is_sym(a.a) and is_sym(b.a) and z3.eq(a.a, b.a))):
+                if z3.eq(to_z3(simp(a.off + a.len)), to_z3(simp(b.off))):
+                    # two adjacent windows of the same buffer are one window
+                    merged = Piece('view', a.a, a.off, simp(a.len + b.len))
+                    return VBytes(self.pieces[:-1] + [merged] + other.pieces[1:], kind)
+        return VBytes(self.pieces + other.pieces, kind)
 
 
 def bytes_eq(a: VBytes, b: VBytes):
